@@ -29,6 +29,12 @@ def run(chk):
     # a level beyond the next bottom level (known finding: accepted, the levels are then not 0..n-1)
     sh += common.stage_histories(chk, ntraces=16, steps=0, nvars_choices=[6], nparts=1,
                                  profile='decl_gap', tag='gap')
+    # the same four views read THROUGH dd.autoref.BDD (its `vars` is an alias of the manager's dict)
+    from harness.checks import c08 as _c08
+    at = [dict(shard=chk.shard('au_c14_%d' % i), first_tid=14500000 + i * 100, ntraces=3 if q else 40,
+               seed=chk.seed, nvars_choices=[3, 4, 5], steps=70 if q else 120) for i in range(8)]
+    ash, _ = chk.generate(_c08.auto_task, at)
+    sh += ash
     chk.validate('TraceBDD', 'TraceBDD.cfg', sh)
 
     def lagging_view(tr):
